@@ -507,6 +507,25 @@ def ieval(ft, t, env, assume=None, _nested=False):
         raise Undetermined(t[1])
     if tag == "cast" and t[1] == "IntToInt":
         return wrap(ieval(ft, t[2], env, assume, _nested), t[3])
+    if tag in ("ref", "deref"):
+        return ieval(ft, t[2] if tag == "ref" else t[1], env, assume, _nested)
+    if tag == "call" and isinstance(t[1], str) and t[1].endswith("::contains") and "ops::Range" in t[1] and len(t[2]) == 2:
+        rng, x = t[2]
+        for _ in range(6):
+            while rng[0] in ("ref", "deref"):
+                rng = rng[2] if rng[0] == "ref" else rng[1]
+            if rng[0] == "promoted":
+                rng = resolve_promoted(ft.facts, rng)
+            else:
+                break
+        xv = ieval(ft, x, env, assume, _nested)
+        if rng[0] == "agg" and rng[2].startswith("std::ops::Range::") and len(rng[3]) == 2:
+            lo, hi = (ieval(ft, y, env, assume, _nested) for y in rng[3])
+            return int(lo <= xv < hi)
+        if rng[0] == "call" and isinstance(rng[1], str) and rng[1].endswith("RangeInclusive::new") and len(rng[2]) == 2:
+            lo, hi = (ieval(ft, y, env, assume, _nested) for y in rng[2])
+            return int(lo <= xv <= hi)
+        raise Undetermined("contains")
     if tag == "call" and isinstance(t[1], str):
         name = t[1]
         args = [ieval(ft, a, env, assume, _nested) for a in t[2]] if not name.endswith("unwrap_or") else None
@@ -718,3 +737,17 @@ def call_eval(facts, path, argvals):
     if len(vals) != 1:
         raise Undetermined("call %s%s -> %s" % (path, tuple(argvals), sorted(vals)))
     return vals.pop()
+
+
+def resolve_promoted(facts, t):
+    """('promoted', owner, idx) -> the term the promoted body returns"""
+    if t[0] != "promoted":
+        return t
+    path = "%s::promoted[%d]" % (t[1], t[2])
+    if path not in facts.fns:
+        return t
+    pft = fn_terms(facts, path)
+    rb = pft.return_blocks()
+    if len(rb) != 1:
+        return t
+    return pft.return_term(rb[0])
